@@ -89,6 +89,11 @@ func (c *compiler) updateEnterBlock(enter *enterBlock) {
 	stashSize, stackSize := 0, 0
 	if scope.dynLookup {
 		stashSize = len(scope.bindings)
+		if stashSize == 0 {
+			// A dynamic scope counts as one level for the variables accessed through it, so it must exist at run time
+			// even when it has no bindings of its own (an anonymous class expression one of whose methods contains a direct eval).
+			stashSize = 1
+		}
 		enter.names = scope.makeNamesMap()
 		for _, b := range scope.bindings {
 			if b.noStash {
